@@ -217,6 +217,19 @@ static void mod_filt()
         a_real fh = fc / 2, th = ts / 2;
         CHECK_RET("lpf", "A_LPF_GEN(compound)", (a_real)A_LPF_GEN(fh + fh, th + th), a_lpf_gen(fc, ts));
         CHECK_RET("hpf", "A_HPF_GEN(compound)", (a_real)A_HPF_GEN(fh + fh, th + th), a_hpf_gen(fc, ts));
+        // static initialiser macros, with compound-expression arguments
+        {
+            a_real al = a_lpf_gen(fc, ts), ahh = al / 2;
+            a_lpf i1 = A_LPF_1(ahh + ahh), i2 = A_LPF_2(fh + fh, th + th), r1;
+            a_hpf j1 = A_HPF_1(ahh + ahh), j2 = A_HPF_2(fh + fh, th + th), q1, q2;
+            a_lpf_init(&r1, al);
+            a_hpf_init(&q1, al);
+            a_hpf_init(&q2, a_hpf_gen(fc, ts));
+            CHECK_OBJ("lpf", "A_LPF_1(compound)", i1, r1);
+            CHECK_OBJ("lpf", "A_LPF_2(compound)", i2, lc);
+            CHECK_OBJ("hpf", "A_HPF_1(compound)", j1, q1);
+            CHECK_OBJ("hpf", "A_HPF_2(compound)", j2, q2);
+        }
         for (int k = 0; k < 7; ++k)
         {
             CHECK_RET("lpf", "operator()", lm(X[k]), a_lpf_iter(&lc, X[k]));
@@ -306,6 +319,8 @@ static void mod_pid()
         a_pid_fuzzy_zero(&c); m.zero();
         CHECK_OBJ("pid_fuzzy", "zero", c.pid, m.pid);
     }
+    ++n_eval;
+    if (A_PID_FUZZY_BFUZZ(1 + 1) != A_PID_FUZZY_BFUZZ(2) || A_PID_FUZZY_BFUZZ(2) != 2 * 2 * sizeof(unsigned int) + (2 + 2) * 2 * sizeof(a_real)) { differ("pid_fuzzy", "A_PID_FUZZY_BFUZZ(compound)", "the documented buffer size is not 2N indices + (2+N)N values"); }
     R.part("C++ members of a_pid, a_pid_neuro, a_pid_fuzzy (init, setters, run/pos/inc over a 6-step history, zero) next to the C functions with pairwise distinct arguments", n_eval, n_eval);
 }
 
